@@ -4,7 +4,7 @@
    Cde.write_courses; the real files are compared with these and checked by Cde.import_okb inside Coq on every run). *)
 From Coq Require Import List ZArith Lia Bool Arith.
 Require Import HP1 Cao1 Cao3 Json Cde CdeThms CdeWriteOk.
-Require CdeSpec CdeRefine CdeIds WriteDoc WriteDocThms.
+Require CdeSpec CdeRefine CdeIds WriteDoc WriteDocThms CdeImportSound.
 From Coq Require Import Permutation String.
 Import ListNotations.
 Open Scope nat_scope.
@@ -61,6 +61,13 @@ Proof.
   apply (C05_file ps cs K a NDp NDc Hh HK).
 Qed.
 
+(* what the executable check MEANS: every file it accepts satisfies the declarative statement CdeImportSound.ImportOK -- every registration and
+   course mentioned at most once; every pair (registration, course) names a registration and a course of the problem, the course is marked as
+   taking place in the file and the person chose or instructs it; every course marked as taking place has between min and max attendees besides
+   its instructors; a course marked as cancelled has nobody assigned and holds no reserved places; every course of the problem is mentioned *)
+Theorem C05_check_sound : forall ps cs regs crs, import_okb ps cs regs crs = true -> CdeImportSound.ImportOK ps cs regs crs.
+Proof. exact CdeImportSound.import_okb_sound. Qed.
+
 (* at DOCUMENT level: WriteDoc.write_doc is the whole JSON value cdedb::write serialises (every key; compared with every file the real binary
    writes, CorrDoc).  The import side (WriteDoc.import_of_doc: strict reading -- exactly the seven keys, the output schema version, kind
    "partial", per registration exactly one track = the selected one with a course_id, per course exactly one segment = the selected track and
@@ -83,10 +90,11 @@ Example C05_document_example :
   | None => False end.
 Proof. vm_compute. split; reflexivity. Qed.
 
-Check C05_file. Check C05. Check C05_ids_distinct. Check C05_export_file. Check C05_document. Check C05_keys_parse_back.
+Check C05_file. Check C05. Check C05_ids_distinct. Check C05_export_file. Check C05_document. Check C05_keys_parse_back. Check C05_check_sound.
 Print Assumptions C05.
 Print Assumptions C05_file.
 Print Assumptions C05_ids_distinct.
 Print Assumptions C05_export_file.
 Print Assumptions C05_document.
 Print Assumptions C05_keys_parse_back.
+Print Assumptions C05_check_sound.
